@@ -437,6 +437,10 @@ where
             self.prev_values
                 .push_back((self.time.real(), self.state.clone()));
             self.prev_values.pop_front();
+            // The derivative of this step enters the history together with its value
+            self.prev_derivatives
+                .push_back(self.implicit_derivs.clone());
+            self.prev_derivatives.pop_front();
             return Ok((self.time.real(), self.state.clone()));
         }
 
